@@ -915,6 +915,9 @@ fn sync_main(tier: vh::Tier) -> i32 {
             (vh::Tier::Quick, "3x2") => 1, // 3x2 with 2 preemptions is 10 660 schedules (~40 s): thorough only
             (vh::Tier::Quick, _) => 2,
             (vh::Tier::Thorough, "2x2") | (vh::Tier::Thorough, "2x2-mixed") | (vh::Tier::Thorough, "2x2-rewrite") | (vh::Tier::Thorough, "2x2-excepted") | (vh::Tier::Thorough, "2x2-cosmetic") | (vh::Tier::Thorough, "2x2-csp") | (vh::Tier::Thorough, "2x2-redirect") => 4,
+            // (3x2 with 3 preemptions is 506 226 schedules in ONE sequential exploration, 26 minutes:
+            // more than the tier's whole time; bound 2 = 21 424 schedules)
+            (vh::Tier::Thorough, "3x2") => 2,
             (vh::Tier::Thorough, _) => 3,
         };
         for b in 0..=max_bound {
